@@ -18,8 +18,12 @@ import copy
 
 from .facts import Fn, callee
 
+# second view (core.run_rules): callees whose name the rule's own module mentions are kept as calls - the rule knows them as
+# helpers of today's code and looks for the call; everything else that is helper-like is spliced in
+KEEP_NAMES = frozenset()
+KEEP_ID = ""
 MAX_CALLERS = 3
-MAX_BLOCKS = 120
+MAX_BLOCKS = 300
 DEPTH = 3
 
 
@@ -47,6 +51,10 @@ def helper_like(F, caller, cname, keep=()):
         return False
     if any(k in cname for k in keep):
         return False
+    if keep == ("<rule-module-names>",) or "<rule-module-names>" in keep:
+        last = cname.split("::")[-1].rstrip(">")
+        if last in KEEP_NAMES:
+            return False
     if "{closure" in cname:
         return False
     callers = {_base(x) for x in _callers(F).get(cname, ())}
@@ -137,7 +145,7 @@ def _shift_block(blk, off, boff, ret_local, dest, cont, line):
 def flat(F, name, keep=(), depth=DEPTH):
     """the function `name` with helper-like callees spliced in; the original Fn when there is nothing to splice"""
     memo = F.__dict__.setdefault("_flat_memo", {})
-    mk = (name, tuple(keep), depth)
+    mk = (name, tuple(keep), depth, KEEP_ID if "<rule-module-names>" in keep else "")
     if mk in memo:
         return memo[mk]
     fn = F.fns[name]
@@ -178,6 +186,7 @@ def flat(F, name, keep=(), depth=DEPTH):
                 else:
                     blocks.append(_shift_block(copy.deepcopy(cb), off, boff, off, dest, cont, line))
             blocks[b]["term"] = {"k": "goto", "t": boff, "line": line, "spliced_call": cname}
+            d.setdefault("splice_map", []).append([cname, b, boff])
             spliced.append(cname)
             work = True
         cur = Fn(name, d, fn.crate)
@@ -192,3 +201,20 @@ def flat(F, name, keep=(), depth=DEPTH):
 
 def spliced(fn):
     return fn.d.get("spliced", [])
+
+
+def splice_offsets(fn, cname):
+    """block offsets at which the body of `cname` was spliced into this flat view (one per call site)"""
+    return [boff for cn, cb, boff in fn.d.get("splice_map", []) if cn == cname]
+
+
+def sole_caller(F, cname):
+    """the one function that calls `cname` (closures count for their parent), when there is exactly one and `cname` is a
+    helper in the sense of helper_like; else None"""
+    callers = {_base(x) for x in _callers(F).get(cname, ())}
+    if len(callers) != 1:
+        return None
+    c = next(iter(callers))
+    if c not in F.fns or not helper_like(F, F.fns[c], cname):
+        return None
+    return c
